@@ -148,6 +148,7 @@ class GRSession(SessionBase):
         self.L = self.cfg['L']
         self.K = self.cfg['K']
         self.ch = {int(k): v for k, v in self.cfg['charges'].items()}
+        self.idI = int(self.cfg.get('idI', 0))
         self.d = self.cfg['d']
         self.qd = list(self.cfg['qd'])
         self.charged = any(self.ch.values())
@@ -159,7 +160,7 @@ class GRSession(SessionBase):
         qd = np.asarray(self.qd)
         om = {}
         for o in sorted(self.ch):
-            if o == 0:
+            if o == self.idI:
                 om[o] = np.identity(d)
                 continue
             M = g.normal(size=(d, d)) + 1j * g.normal(size=(d, d))
@@ -220,7 +221,7 @@ class GRSession(SessionBase):
         for c in chains:
             if c['coeff'] == 0:
                 continue
-            mono = tuple([0] * c['istart'] + [int(x) for x in c['oids']] + [0] * (L - c['istart'] - len(c['oids'])))
+            mono = tuple([self.idI] * c['istart'] + [int(x) for x in c['oids']] + [self.idI] * (L - c['istart'] - len(c['oids'])))
             p[mono] = p.get(mono, 0) + Fraction(c['coeff'])
         return {k: v for k, v in p.items() if v != 0}
 
@@ -229,13 +230,13 @@ class GRSession(SessionBase):
 
         def rec(node, prefix, coeff):
             if not node['children']:
-                mono = tuple(prefix + [0] * (L - len(prefix)))
+                mono = tuple(prefix + [self.idI] * (L - len(prefix)))
                 p[mono] = p.get(mono, 0) + coeff
                 return
             for e in node['children']:
                 rec(e['node'], prefix + [int(e['oid'])], coeff * Fraction(e['coeff']))
         for t in trees:
-            rec(t['root'], [0] * t['istart'], Fraction(1))
+            rec(t['root'], [self.idI] * t['istart'], Fraction(1))
         return {k: v for k, v in p.items() if v != 0}
 
     def automaton_poly(self, spec, L):
@@ -411,7 +412,7 @@ class GRSession(SessionBase):
         else:
             store[ridx] = (chains, spec)      # the same objects, now with their updated description
         before = [(list(c.oids), list(c.qnums), c.coeff, c.istart) for c in chains]
-        snap, g, exc = self.guarded(op, lambda: ptn.OpGraph.from_opchains(chains, L, 0), ('C05',))
+        snap, g, exc = self.guarded(op, lambda: ptn.OpGraph.from_opchains(chains, L, self.idI), ('C05',))
         self.bystanders_unchanged(snap, set())
         after = [(list(c.oids), list(c.qnums), c.coeff, c.istart) for c in chains]
         self.check(before == after, 'C19', 'chains_modified', 'from_opchains modified its chain arguments')
@@ -480,7 +481,7 @@ class GRSession(SessionBase):
         leaf = ptn.OpTreeNode([], 0) if op.get('share_leaf') else None
         roots = {} if op.get('share') else None
         trees = [self.build_tree(t, leaf, roots) for t in specs]
-        snap, g, exc = self.guarded(op, lambda: ptn.OpGraph.from_optrees(trees, L, 0), ('C17',))
+        snap, g, exc = self.guarded(op, lambda: ptn.OpGraph.from_optrees(trees, L, self.idI), ('C17',))
         self.bystanders_unchanged(snap, set())
         if exc is not None:
             self.check(False, 'C17', 'raised', f'from_optrees: {type(exc).__name__}: {exc}')
@@ -705,6 +706,52 @@ class GRSession(SessionBase):
         if cur in g.nid_terminal:
             self.probe('rename_terminal_node')
         return self._rewrite(op, o, lambda: g.rename_node_id(cur, new), dict(o.poly), f'rename_node_id({cur},{new})')
+
+    def op_one_node_graph(self, op):
+        """Degenerate end of C16 / C17: a graph of length 0 (one node, both terminals) under renaming, flipping,
+        simplification and dense / MPO conversion.  Self-contained: the graph does not enter the pool."""
+        ptn = self.ptn
+        P = ['C16']
+        nid = int(op['nid'])
+        snap, g, exc = self.guarded(op, lambda: ptn.OpGraph([ptn.OpGraphNode(nid, [], [], int(op['q']))], [], [nid, nid]), P)
+        self.bystanders_unchanged(snap, set())
+        if exc is not None:
+            self.check(False, P, 'raised', f'one-node OpGraph: {type(exc).__name__}: {exc}')
+            return 'raised'
+        news = list(op['new'])
+        for k, step in enumerate(op['steps']):
+            cur = g.nid_terminal[0]
+            try:
+                if step == 'rename':
+                    new = int(news[k % len(news)])
+                    if new == cur:
+                        continue
+                    g.rename_node_id(cur, new)
+                    self.check(list(g.nodes) == [new] and g.nodes[new].nid == new, P, 'one_node_renamed', lambda: f'nodes {list(g.nodes)} after rename_node_id({cur},{new})')
+                elif step == 'flip':
+                    g.flip()
+                elif step == 'simplify':
+                    g.simplify()
+                elif step == 'as_matrix':
+                    M = np.asarray(g.as_matrix(self.opmap))
+                    self.check(M.shape == (1, 1) and abs(M[0, 0] - 1) == 0, ['C17'], 'one_node_dense_meaning', lambda: f'as_matrix of the one-node graph: {M!r}')
+                elif step == 'to_mpo':
+                    mpo = ptn.MPO.from_opgraph(self.qd, g, self.opmap)
+                    self.check(len(mpo.A) == 0 or np.asarray(mpo.as_matrix()).shape == (1, 1), ['C05'], 'one_node_mpo', 'MPO of the one-node graph')
+                    continue
+            except Exception as e:   # noqa
+                self.check(False, P, 'raised', f'one-node graph, {step}: {type(e).__name__}: {e}')
+                return 'raised'
+            t = list(g.nid_terminal)
+            self.check(len(g.nodes) == 1 and len(g.edges) == 0 and len(t) == 2 and t[0] == t[1] and t[0] in g.nodes, P, 'one_node_terminals',
+                       lambda: f'after {step}: nodes {list(g.nodes)}, terminals {t}')
+            try:
+                okc = bool(g.is_consistent())
+            except Exception as e:   # noqa
+                okc = False
+            self.check(okc, P, 'consistent', lambda: f'one-node graph inconsistent after {step} (terminals {t}, nodes {list(g.nodes)})')
+        self.probe('one_node_graph_history')
+        return 'ok'
 
     def op_rename_edge(self, op):
         o = self.pick(op['sel'])
